@@ -219,6 +219,50 @@ int main(int argc, char **argv) {
         };
         samples.push_back("p edge 3 3 / c <1022 characters> / e 1 2 2.5 / a 2 3 2.5 / e 1 3 2.5");
         samples.push_back("p edge 3 3 / e 1 2 2.5 / a 2 3 / e 1 3 2.5000...0 (1023 characters, no final newline)");
+    } else if (mode == "validators-large") {
+        // size thresholds of the validators: two hubs 0 and 1 with d further neighbours each (degree d + 1), the hub-hub edge
+        // first; ONE offending edge - a second copy of the hub-hub edge (either orientation), a copy of a hub-leaf edge, a
+        // self-loop at a hub, or a non-positive weight - is inserted at every position of the edge sequence, for every d in
+        // 0..40 and around 64 / 128 / 256; the clean graph is checked as well.
+        std::vector<int> ds; for (int d = 0; d <= 40; ++d) ds.push_back(d); for (int d : {62, 63, 64, 65, 66, 127, 128, 129, 255, 256, 257}) ds.push_back(d);
+        total_units = ds.size();
+        work = [=, &R](uint64_t ui, uint64_t) {
+            int d = ds[(ui + seed) % ds.size()];
+            int n = 2 + 2 * d;
+            std::vector<std::pair<int, int>> base; base.push_back({0, 1});
+            for (int i = 0; i < d; ++i) base.push_back({0, 2 + i});
+            for (int i = 0; i < d; ++i) base.push_back({1, 2 + d + i});
+            struct Off { int kind; };      // 0 none, 1 dup hub-hub same orientation, 2 dup hub-hub reversed, 3 dup of the last hub-leaf edge reversed, 4 self-loop at hub 0, 5 weight 0 on an extra leaf edge
+            for (int kind = 0; kind <= 5; ++kind) {
+                if (kind == 3 && d == 0) continue;
+                for (std::size_t pos = 0; pos <= base.size(); ++pos) {
+                    if (kind == 0 && pos > 0) break;
+                    Graph g(n + 1);
+                    bool loops = false, multi = false, nonpos = false;
+                    auto put = [&](int a, int b, double w) { boost::add_edge(a, b, w, g); };
+                    for (std::size_t i = 0; i <= base.size(); ++i) {
+                        if (i == pos && kind) {
+                            if (kind == 1) { put(0, 1, 1); multi = true; }
+                            else if (kind == 2) { put(1, 0, 1); multi = true; }
+                            else if (kind == 3) { put(base.back().second, base.back().first, 1); multi = true; }
+                            else if (kind == 4) { put(0, 0, 1); loops = true; }
+                            else { put(0, n, 0.0); nonpos = true; }
+                        }
+                        if (i < base.size()) put(base[i].first, base[i].second, 1);
+                    }
+                    std::string cs = "mode=validators-large;d=" + std::to_string(d) + ";offender=" + std::to_string(kind) + ";pos=" + std::to_string(pos);
+                    R.crumb_text(cs);
+                    bool gl = parmcb::has_loops(g), gn = parmcb::has_non_positive_weights(g, boost::get(boost::edge_weight, g));
+                    bool gm = loops ? multi : parmcb::has_multiple_edges(g);
+                    R.crumb_done();
+                    R.count(C_EVAL); R.count(C_NONTRIV);
+                    if (gl != loops) R.violation({"has_loops", "validator", cs, std::string("has_loops returned ") + (gl ? "true" : "false")});
+                    if (gn != nonpos) R.violation({"has_non_positive_weights", "validator", cs, std::string("has_non_positive_weights returned ") + (gn ? "true" : "false")});
+                    if (gm != multi) R.violation({"has_multiple_edges", "validator", cs, std::string("has_multiple_edges returned ") + (gm ? "true" : "false") + " (hub degree " + std::to_string(d + 1) + ")"});
+                }
+            }
+        };
+        samples.push_back("mode=validators-large;d=33;offender=2;pos=67 (second copy of the hub-hub edge, reversed, after all other edges)");
     } else {
         int ME = (int) A.geti("max-edges", 3);
         // unit = (n, edge count, first edge); inside: remaining edges x weights
